@@ -1657,6 +1657,6 @@ func TestCheck(t *testing.T) {
 		return
 	}
 	ex := &executor{schema: schema}
-	n := run.N(1000, 30000)
+	n := run.N(1000, 100000)
 	run.Each(n, 8, func(i int) { runCase(run, ex, i) })
 }
